@@ -693,3 +693,91 @@ def r9_failure_is_atomic(ck, P):
                 ck.violation(R, f.name, 'image modified before a fallible allocation', '%s stores %s (%s) before the allocation at %s whose failure makes it return FALSE: after a refused call the image is half updated - e.g. the filter kind already switched while the parameter block is still the old one - and is no longer safe to draw with' % (f.name, f.last_field(f.path(bad.a[1])), bad.loc(), c.loc()), bad.loc())
     if n == 0:
         ck.incomplete(R, 'no exported image setter with a fallible allocation found')
+
+
+def r10_cleanup_count_is_fresh(ck, P):
+    """T-MPT: a cleanup loop releases elements [0, N) of an array of owned blocks.  Where an element of the same array has already
+    been released earlier, the N handed to the cleanup must have been computed after that release on every path — otherwise the
+    cleanup releases the element a second time."""
+    from .factors import _loops_of
+    R = ck.rule('C15-R10', 'every element count handed to a cleanup loop (for i < N: free (array[i].field)) is computed after any earlier release of an element of the same array on every path that reaches the cleanup: no path carries a count that still includes an element already released', floor=2)
+    for u in P.units.values():
+        if not any(c.callee == 'free' for g in u.functions.values() for c in g.calls()):
+            continue
+        L = None
+        for fn, f in u.functions.items():
+            frees = [c for c in f.calls('free')]
+            if len(frees) < 2:
+                continue
+            if L is None:
+                L = _loops_of(u)
+            for lp in L.get(fn, []):
+                blocks = set(lp['blocks'])
+                ivs = [f.by_id[p['v']] for p in lp['phis'] if p.get('step') == 1 and not p['ty'].endswith('*')]
+                if not ivs:
+                    continue
+                inner = [c for c in frees if c.bb.id in blocks]
+                if not inner:
+                    continue
+                def fields(c):
+                    out = []
+                    def walk(t):
+                        if isinstance(t, str):
+                            if '.' in t:
+                                out.append(t)
+                        elif isinstance(t, tuple):
+                            for q in t:
+                                walk(q)
+                    walk(f.path(c.a[0]))
+                    return tuple(out)
+                def indexed_by(c, iv, d=0):
+                    seen = set(); work = [c.a[0]]
+                    while work and len(seen) < 60:
+                        o = work.pop()
+                        if o[0] != 'v' or o[1] in seen:
+                            continue
+                        if o[1] == iv.i:
+                            return True
+                        seen.add(o[1])
+                        x = f.by_id[o[1]]
+                        if x.op in ('call', 'phi'):
+                            continue
+                        work.extend(a for a in x.a if a)
+                        work.extend(st[1] for st in x.d.get('path', []) if st and st[0] == 'p' and isinstance(st[1], list))
+                    return False
+                hdr = f.blocks[lp['header']]
+                for iv in ivs:
+                    cl = [c for c in inner if fields(c) and indexed_by(c, iv)]
+                    if not cl:
+                        continue
+                    # the bound: the other side of the header's comparison with the induction variable
+                    N = None
+                    for x in hdr.insts:
+                        if x.op == 'icmp' and any(a == ['v', iv.i] for a in x.a):
+                            o = [a for a in x.a if a != ['v', iv.i]][0]
+                            N = f.v(o)
+                    if N is None or N.op != 'phi' or N.bb.id in blocks:
+                        continue
+                    ck.saw(f)
+                    key = fields(cl[0])
+                    elem = [c for c in frees if c.bb.id not in blocks and fields(c) == key]
+                    bad = None
+                    for V, p in zip(N.a, N.d['bb']):
+                        v = f.v(V)
+                        if v is None:
+                            continue
+                        for F in elem:
+                            if F.bb.id == v.bb.id:
+                                stale = v.i < F.i and p in f.reachable_blocks(F.bb.id, avoid=())
+                            else:
+                                stale = p == F.bb.id or p in f.reachable_blocks(F.bb.id, avoid={v.bb.id})
+                            if stale:
+                                bad = (F, p, v); break
+                        if bad:
+                            break
+                    where = '%s/%s: cleanup loop at block %d over %s, count %s from %d edges, %d earlier element releases' % (u.name, fn, lp['header'], '/'.join(key), N.dv or 'N', len(N.a), len(elem))
+                    if bad:
+                        F, p, v = bad
+                        ck.violation(R, fn, 'cleanup count %s (%s)' % (N.dv or 'N', u.name), 'the cleanup loop releases %s of elements [0, %s) but along the edge from block %d the count was computed before the release at %s: an element released there is still inside the range and is released a second time (and its freed header is read first)' % (key[-1].split('.')[-1], N.dv or 'N', p, F.loc()), F.loc())
+                    else:
+                        ck.ok(R, where)
